@@ -201,6 +201,42 @@ def flat_cache_key(ctx, rule="DEP-cache-key"):
                 "count and keyword names: a binder re-used with differently shaped parameters evaluates a stale Jaxpr", func_loc(ctx, dotted))
     else:
         ctx.ok(rule, "pjax.FlatSamplerCache.get_flat_sampler", short(k, ev))
+    # every input of the staging call must be covered by the key, unless it is fixed for the lifetime of the cache object (a field of
+    # self assigned only in __init__, or a module-level name): a parameter of get_flat_sampler that the staged callable is built from
+    # (e.g. a config carrying sample_shape) and that the key ignores means two sites sharing the cache get each other's sampler
+    staged = [e[2] for e in s.events if e[1] == "call" and is_call(e[2][1]) and e[2][1][1] == ("attr", SELF, "_make_flat")]
+    kind, node, mod, owner = ctx.p.get_function(dotted)
+    params = [a.arg for a in node.args.args[1:]] + ([node.args.vararg.arg] if node.args.vararg else []) + ([node.args.kwarg.arg] if node.args.kwarg else []) \
+        + [a.arg for a in node.args.kwonlyargs]
+    key_params = {x[1] for x in subterms(k) if x[0] == "param"}
+    # fields of self written outside __init__ are not cache-lifetime constants
+    cls_kind, cls_node, cls_mod, _ = ctx.p.lookup(PJ + "FlatSamplerCache")
+    mutable_fields = set()
+    for f in cls_node.body:
+        if isinstance(f, ast.FunctionDef) and f.name != "__init__":
+            for n in ast.walk(f):
+                if isinstance(n, (ast.Assign, ast.AugAssign, ast.AnnAssign)):
+                    for tg in (n.targets if isinstance(n, ast.Assign) else [n.target]):
+                        if isinstance(tg, ast.Attribute) and isinstance(tg.value, ast.Name) and tg.value.id == "self":
+                            mutable_fields.add(tg.attr)
+    missing = []
+    for t in dict.fromkeys(staged):
+        used = set()
+        for x in subterms(t):
+            if x[0] == "param" and x[1] in params:
+                used.add(x[1])
+            if x[0] == "attr" and x[1] == SELF and x[2] in mutable_fields and x[2] not in ("_flat_sampler", "_cached_args_signature"):
+                used.add("self." + x[2])
+        for u in sorted(used):
+            if u not in key_params and not any(x == ("attr", SELF, u[5:]) for x in subterms(k) if u.startswith("self.")):
+                missing.append(u)
+    if missing:
+        ctx.bad(rule, "pjax.FlatSamplerCache.get_flat_sampler", f"the memo key covers every per-call input of the staging ({sorted(set(missing))} not covered)",
+                f"the staged flat sampler is built from {sorted(set(missing))} but the key {short(k, ev, 100)} ignores it: two calls that differ only there "
+                "(e.g. the same distribution with a different sample_shape) share one staged sampler, so the result of seed(f)(key, ...) depends on which call came first",
+                func_loc(ctx, dotted))
+    else:
+        ctx.ok(rule, "pjax.FlatSamplerCache.get_flat_sampler (inputs covered)", f"staging inputs {sorted(key_params)} all in the key; other inputs are cache-lifetime constants")
 
 
 
@@ -1310,10 +1346,12 @@ def flat_sampler_staging(ctx, rule="ROLE-flat-sampler"):
     staged = [e[2] for e in s.events if e[1] == "call" and is_call(e[2][1]) and e[2][1][1] == ("attr", SELF, "_make_flat")]
     staged = list(dict.fromkeys(staged))
     ctx.need(len(staged) >= 1, f"{dotted}: staging call self._make_flat(...)(...) not found (anchor vanished)")
-    kws = ("call", ("attr", ("attr", SELF, "config"), "get_keyful_sampler_with_shape"), (), ())
     problems = []
     for t in staged:
-        if t[1][2] != (kws,):
+        f0 = t[1][2][0] if len(t[1][2]) == 1 else None
+        # the shape-applied keyful sampler of a sampler config (whichever way the config reaches this method)
+        is_kws = f0 is not None and is_call(f0) and f0[1][0] == "attr" and f0[1][2] == "get_keyful_sampler_with_shape" and not f0[2] and not f0[3]
+        if not is_kws:
             problems.append(f"the staged function is {short(t[1][2][0] if t[1][2] else NONE, ev, 80)}, not the shape-applied keyful sampler")
         if t[2] != (N(PJ + "_fake_key"), ("star", ARGS)) or t[3] != ((None, KW),):
             problems.append(f"staged on {short(('tuple', t[2]), ev, 100)} {short(('dict', tuple((C(k), v) for k, v in t[3] if k is not None)), ev, 60) if any(k for k, _ in t[3]) else ''}"
